@@ -12,10 +12,10 @@ EXPLANATION = (
     "term and the given implication), enabled guard of Rule.trigger, the non-finite replacement table nan->0, -inf->0, "
     "+inf->1 and the constructor going through the sanitising setter, hedge order; no numpy in-place interface (copy=False, out=, "
     "copyto/put, op= on an array parameter) on a value handed in along the trigger path (T2-own); who-may-call for Consequent.modify; "
-    "Consequent.load replaces the list of conclusions (O9) and its automaton equals the consequent grammar (F1)"
+    "Consequent.load replaces the list of conclusions (O9) and, interpreted abstractly, is the consequent grammar automaton (LD)"
 )
 ASSUMPTIONS = ["numpy.nan_to_num keyword semantics"]
-FLOORS = {"L1": 1, "P5": 5, "P4": 3, "T2": 4, "H1": 1, "T2-own": 1, "O9": 2, "F1": 1}
+FLOORS = {"L1": 1, "P5": 5, "P4": 3, "T2": 4, "H1": 1, "T2-own": 1, "O9": 2, "LD": 4}
 
 
 def run(check: Check) -> None:
@@ -30,5 +30,7 @@ def run(check: Check) -> None:
 
     # the conclusions that modify() iterates are exactly those of the text last loaded: a (re)load replaces the list, it never grows it
     c16.load_atomicity(check, only="Consequent.load")
-    c16.consequent_automaton(check)
+    from . import loaders
+
+    loaders.loader(check, "Consequent.load")
     check.exhaustive_parts.append("one iteration of Consequent.modify under enabled/disabled")
